@@ -48,6 +48,8 @@ func vCheckDecoded(in []byte, db SignatureDatabase) {
 		}
 		_, supported := ValidEFISignatureSchemes[l.SignatureType]
 		vsym.Assert(supported, "signature type is a known one")
+		// only the list types the decoder implements are accepted; the other known types are "unsupported input"
+		vsym.Assert(l.SignatureType == CERT_X509_GUID || l.SignatureType == CERT_SHA256_GUID || l.SignatureType == CERT_EXTERNAL_MANAGEMENT_GUID, "an accepted list has a supported type (X.509, SHA-256, external management)")
 		base := off + 28 + int(l.HeaderSize)
 		for k, s := range l.Signatures {
 			eo := base + k*int(l.Size)
